@@ -48,6 +48,15 @@ pub fn run(tier: &str, seed: u64) -> i32 {
     let depth = if tier == "quick" { 6 } else { 8 };
     let cfg = default_cfg("C09", tier, seed, depth);
     ev.add_report(explore(&scenario(tier), &cfg));
+    if tier == "quick" && ev.violations.is_empty() {
+        // the quick tier's main exploration has two bonders; a shallower one with three (the property speaks of >= 3
+        // bonders) over the first three roots, so that every change is also exercised with a third party's claims and bonds
+        let mut three = scenario(tier);
+        three.users = vec![ALICE.into(), BOB.into(), CAROL.into()];
+        three.roots.truncate(3);
+        let cfg3 = default_cfg("C09", tier, seed, 4);
+        ev.add_report(explore(&three, &cfg3));
+    }
     if ev.violations.is_empty() {
         for c in ["newepoch:ok", "newepoch:rejected", "rollover:nonzero", "claim:paid>0", "claim:rejected", "bond:ok", "unbond:ok", "grace:increased"] {
             ev.require_counter(c, 1);
